@@ -2,6 +2,8 @@ package main
 
 import (
 	"fmt"
+	"go/token"
+	"go/types"
 	"strings"
 
 	"golang.org/x/tools/go/ssa"
@@ -46,6 +48,7 @@ func checkCiscoConv(p *Prog, r *Report, prop, flavour string) {
 		r.rule("R08.k", "IOS numbering constants agree (see C08).")
 		ruleIOSNumbering(p, r)
 		ruleDroppedMoveIdentical(p, r, "R02.l")
+		ruleDroppedMovePosition(p, r, "R02.m")
 	}
 	r.rule("R08.m", "Configuration-mode bookkeeping (see C08): every emission goes through the helpers that maintain the mode.")
 	ruleConfMode(p, r)
@@ -140,4 +143,114 @@ func reachesAvoiding(from, to *ssa.BasicBlock, stop func(ssa.Instruction) bool) 
 		return false
 	}
 	return walk(from)
+}
+
+// valueDeps: the values v is computed from, through phis, operators, conversions and
+// calls, and — for a phi — the conditions of the branches that choose its edge.
+func valueDeps(v ssa.Value) map[ssa.Value]bool {
+	out := map[ssa.Value]bool{}
+	var visit func(v ssa.Value, d int)
+	visit = func(v ssa.Value, d int) {
+		if v == nil || out[v] || d > 12 {
+			return
+		}
+		out[v] = true
+		switch x := v.(type) {
+		case *ssa.Phi:
+			for _, e := range x.Edges {
+				visit(e, d+1)
+			}
+			stop := x.Block().Idom()
+			for _, pred := range x.Block().Preds {
+				for b := pred; b != nil; b = b.Idom() {
+					if i := ifOf(b); i != nil {
+						visit(i.Cond, d+1)
+					}
+					if b == stop {
+						break
+					}
+				}
+			}
+		case *ssa.BinOp:
+			visit(x.X, d+1)
+			visit(x.Y, d+1)
+		case *ssa.UnOp:
+			visit(x.X, d+1)
+		case *ssa.Convert:
+			visit(x.X, d+1)
+		case *ssa.ChangeType:
+			visit(x.X, d+1)
+		case *ssa.FieldAddr:
+			visit(x.X, d+1)
+		case *ssa.Field:
+			visit(x.X, d+1)
+		case *ssa.Call:
+			for _, a := range x.Common().Args {
+				visit(a, d+1)
+			}
+		}
+	}
+	visit(v, 0)
+	return out
+}
+
+// loadsFieldNamed: v is the value of a struct field whose qualified name ends in suffix.
+func loadsFieldNamed(v ssa.Value, suffix string) bool {
+	switch x := v.(type) {
+	case *ssa.UnOp:
+		if fa, ok := x.X.(*ssa.FieldAddr); ok && x.Op == token.MUL {
+			return strings.HasSuffix(fieldName(fa), suffix)
+		}
+	case *ssa.Field:
+		if st, ok := x.X.Type().Underlying().(*types.Struct); ok {
+			return strings.HasSuffix(typeShort(x.X.Type())+"."+fldName(st.Field(x.Field)), suffix)
+		}
+	}
+	return false
+}
+
+// ruleDroppedMovePosition (R02.m): the flag that allows moveACL to drop a move inside a block
+// depends on where the device line stands relative to the insert position.
+func ruleDroppedMovePosition(p *Prog, r *Report, rule string) {
+	r.rule(rule, "IOS ACL planner: lines of an inserted range are inserted at the insert position one behind the other. A line of the range whose move inside its block is dropped stays where it is on the device; when a later line of the range has the other action and the dropped line stands behind the insert position, the device has them in the wrong order. At every call of moveACL in diffIOSACLs the flag that allows dropping is computed from a comparison of the device line's position (cmdAndPos.pos) with the range's insert position (Range.LowA). (Pins the defect repaired by 00b7b35.)")
+	fn := p.Fn("(*cisco.State).diffIOSACLs")
+	if fn == nil {
+		r.fail(rule, "anchor|(*cisco.State).diffIOSACLs", "", "not found", "")
+		return
+	}
+	n := 0
+	for _, cs := range callsOf(fn) {
+		for _, cal := range calleesOfSite(p, cs) {
+			if cal.Parent() != fn || closureName(cal) != "moveACL" {
+				continue
+			}
+			args := cs.In.Common().Args
+			// the bool parameter
+			var flag ssa.Value
+			for _, a := range args {
+				if b, ok := a.Type().Underlying().(*types.Basic); ok && b.Kind() == types.Bool {
+					flag = a
+				}
+			}
+			n++
+			ok := false
+			if flag != nil {
+				for d := range valueDeps(flag) {
+					bo, isB := d.(*ssa.BinOp)
+					if !isB {
+						continue
+					}
+					switch bo.Op {
+					case token.LSS, token.GTR, token.LEQ, token.GEQ:
+						if (loadsFieldNamed(bo.X, ".pos") && loadsFieldNamed(bo.Y, ".LowA")) || (loadsFieldNamed(bo.Y, ".pos") && loadsFieldNamed(bo.X, ".LowA")) {
+							ok = true
+						}
+					}
+				}
+			}
+			r.add(rule, fmt.Sprintf("drop-flag-position|%d", n), p.ipos(cs.In), "the flag passed to moveACL depends on the device line's position relative to the insert position", ok,
+				"a line standing behind the insert position keeps its place although lines of the other action from the same range are inserted in front of it: the device ends with <new deny> <permit> where the target has <permit> <new deny>")
+		}
+	}
+	r.floor(rule, "calls of moveACL in diffIOSACLs", n, 1)
 }
